@@ -158,6 +158,107 @@ func dischargeOne(o *Oblig, opts SolveOpts) {
 	}
 }
 
+// EvalInModel asks the solver that found the counterexample for the values of some terms.
+func (o *Oblig) EvalInModel(terms []*Term) []string {
+	if o.Status != "failed" || len(terms) == 0 {
+		return nil
+	}
+	var sv *solverSpec
+	for i := range solvers {
+		if solvers[i].name == o.Solver {
+			sv = &solvers[i]
+		}
+	}
+	if sv == nil {
+		return nil
+	}
+	var sb strings.Builder
+	sb.WriteString("(set-option :produce-models true)\n")
+	if sv.logic {
+		sb.WriteString("(set-logic ALL)\n")
+	}
+	sb.WriteString(o.ctx.Preamble())
+	for _, c := range o.ctx.cmds[:o.CtxLen] {
+		sb.WriteString(c + "\n")
+	}
+	sb.WriteString("(assert (not " + o.Goal.String() + "))\n(check-sat)\n")
+	for _, t := range terms {
+		sb.WriteString("(get-value (" + t.String() + "))\n")
+	}
+	f, err := os.CreateTemp("", "govc-eval-*.smt2")
+	if err != nil {
+		return nil
+	}
+	defer os.Remove(f.Name())
+	f.WriteString(sb.String())
+	f.Close()
+	_, full, _ := runSolver(sv.bin, sv.args(10, 0), f.Name(), 10*time.Second)
+	lines := strings.Split(full, "\n")
+	if len(lines) < 1 || strings.TrimSpace(lines[0]) != "sat" {
+		return nil
+	}
+	// each get-value answers ((term value)); terms may span lines, so parse by balancing parens
+	rest := strings.Join(lines[1:], " ")
+	var out []string
+	depth, start := 0, -1
+	for i, c := range rest {
+		if c == '(' {
+			if depth == 0 {
+				start = i
+			}
+			depth++
+		} else if c == ')' {
+			depth--
+			if depth == 0 && start >= 0 {
+				ans := rest[start : i+1]
+				// strip "((" term " " value "))": value is the last s-expression
+				inner := strings.TrimSpace(ans[2 : len(ans)-2])
+				out = append(out, lastSexpr(inner))
+				start = -1
+			}
+		}
+	}
+	return out
+}
+
+func lastSexpr(s string) string {
+	s = strings.TrimSpace(s)
+	if strings.HasSuffix(s, ")") {
+		depth := 0
+		for i := len(s) - 1; i >= 0; i-- {
+			if s[i] == ')' {
+				depth++
+			} else if s[i] == '(' {
+				depth--
+				if depth == 0 {
+					return s[i:]
+				}
+			}
+		}
+	}
+	if i := strings.LastIndexAny(s, " \t"); i >= 0 {
+		return s[i+1:]
+	}
+	return s
+}
+
+func smtInt(v string) (int64, bool) {
+	v = strings.TrimSpace(v)
+	neg := false
+	if strings.HasPrefix(v, "(-") {
+		neg = true
+		v = strings.TrimSpace(strings.TrimSuffix(strings.TrimPrefix(v, "(-"), ")"))
+	}
+	var n int64
+	if _, err := fmt.Sscanf(v, "%d", &n); err != nil {
+		return 0, false
+	}
+	if neg {
+		n = -n
+	}
+	return n, true
+}
+
 // Discharge runs all obligations through the solvers.
 func Discharge(obs []*Oblig, opts SolveOpts) {
 	if opts.Workers <= 0 {
